@@ -502,6 +502,10 @@ func runC20(c *core.Ctx, o Options) {
 		c.Check(nTypes >= 3, "copylock", "", "lock-holding types found", token.NoPos, fmt.Sprint(nTypes), fmt.Sprintf("only %d lock-holding struct types allocated in the library", nTypes))
 	}
 	c.Explanation += " copylock: no struct holding a sync.Mutex/RWMutex/Once/WaitGroup by value is copied — no value receiver, parameter or result of such a type and no whole-struct load."
+	// fresh-message (premise): constructors hand out objects of their own (a shared value object is written by the decoder on the
+	// inbound goroutine and read by the senders); dispatch happens on the handler's own goroutine only
+	checkFreshConstructors(c, "fresh-message")
+	checkWhoDispatches(c, "fresh-message", libFuncs(c))
 	c.RuleMin = map[string]int{"atomic": 7, "complete": 6, "fresh-message": 3, "lockset": 31, "message-lock": 3, "copylock": 1}
 	c.MinObl = 30
 }
